@@ -20,6 +20,9 @@ def Vector_head (truth : Term → Bool) (n_is_None : Bool) (dataiter_DEFAULT_PEE
     let n' : Int := (pmin self_length n);
     Out.ret [] (Term.app ".copy" [(Term.app "getitem" [(Term.sym "self"), (Term.rows (arange (0 : Int) n'))])])
 
+/-- the decorators of dataiter/vector.py: Vector.head, outermost first -/
+def Vector_head_decorators : List String := []
+
 /-- dataiter/vector.py: Vector.tail (sha256 of the function source: 98e4021f7e2275cc) -/
 def Vector_tail (truth : Term → Bool) (n_is_None : Bool) (dataiter_DEFAULT_PEEK_ELEMENTS : Int) (self_length : Int) (n : Int) : Out :=
   if n_is_None then
@@ -29,5 +32,8 @@ def Vector_tail (truth : Term → Bool) (n_is_None : Bool) (dataiter_DEFAULT_PEE
   else
     let n' : Int := (pmin self_length n);
     Out.ret [] (Term.app ".copy" [(Term.app "getitem" [(Term.sym "self"), (Term.rows (arange (self_length - n') self_length))])])
+
+/-- the decorators of dataiter/vector.py: Vector.tail, outermost first -/
+def Vector_tail_decorators : List String := []
 
 end DI.Gen
